@@ -337,9 +337,9 @@ func logicalContents() []*logical {
 		{"3msg-1chan", []*ref.Schema{s1}, []*ref.Channel{c1}, []*ref.Message{m(1, 1, 2, 2), m(1, 2, 2, 2), m(1, 3, 1, 2)}, nil, d},
 		{"1msg-schemaless", nil, []*ref.Channel{c2}, []*ref.Message{m(2, 1, 0, 4)}, a, nil},
 		// a first chunk can span two later, mutually disjoint ones: partition {1,9},{3},{5}
-		// (the third message on the other topic, the fourth earlier than it: under a topic selection the
-		// second chunk contributes nothing and the third is still due)
-		{"4msg-spanning", []*ref.Schema{s1}, []*ref.Channel{c1, c2}, []*ref.Message{m(1, 1, 1, 2), m(1, 2, 9, 2), m(2, 3, 3, 2), m(1, 4, 2, 2)}, nil, nil},
+		// (b1 a8 | b2 | a3: under a selection of topic a the first chunk contributes only its last message,
+		// the second chunk nothing - it is only pruned when message indexes say so - and the third is still due)
+		{"4msg-spanning", []*ref.Schema{s1}, []*ref.Channel{c1, c2}, []*ref.Message{m(2, 1, 1, 2), m(1, 2, 8, 2), m(2, 3, 2, 2), m(1, 4, 3, 2)}, nil, nil},
 	}
 }
 
@@ -855,7 +855,7 @@ var (
 
 // C12: readers return the same content for every legal layout of it.
 func C12(r *chk.Run) {
-	r.Rule("4 logical contents (<=4 messages on <=2 channels, one with times 1,9,3,2 on two topics so that a chunk can span two later disjoint chunks, shared schema / schemaless, attachment, metadata); layout dimensions: (a) every composition of the message sequence into chunks, each also with an empty chunk at every position, plus unchunked; (b) every per-chunk compression assignment over {none,zstd,lz4}; (c) 4 schema/channel placements; (d) all 720 orders of the six summary groups; (e) all 256 subsets of {message index, statistics, summary offsets, attachment index, metadata index, chunk CRC, data CRC, summary CRC}; quick: every pair of dimensions varied fully with the other three at each of two base settings; thorough adds the full product for the 1-message and 3-message contents; every reader bundle includes a default-options read restricted to each topic; a further phase enumerates every partition x placement x {schemas, channels, both} NOT repeated in the summary x {message index, statistics} subsets x 2 group orders, where index-based and topic-filtered reads may refuse but must never return a silent subset; every emitted file is first validated by the reference validator; distinct = distinct files")
+	r.Rule("4 logical contents (<=4 messages on <=2 channels, one with times 1,8,2,3 on two topics so that a chunk can span two later disjoint chunks, shared schema / schemaless, attachment, metadata); layout dimensions: (a) every composition of the message sequence into chunks, each also with an empty chunk at every position, plus unchunked; (b) every per-chunk compression assignment over {none,zstd,lz4}; (c) 4 schema/channel placements; (d) all 720 orders of the six summary groups; (e) all 256 subsets of {message index, statistics, summary offsets, attachment index, metadata index, chunk CRC, data CRC, summary CRC}; quick: every pair of dimensions varied fully with the other three at each of two base settings; thorough adds the full product for the 1-message and 3-message contents; every reader bundle includes a default-options read restricted to each topic; a further phase enumerates every partition x placement x {schemas, channels, both} NOT repeated in the summary x {message index, statistics} subsets x 2 group orders, where index-based and topic-filtered reads may refuse but must never return a silent subset; every emitted file is first validated by the reference validator; distinct = distinct files")
 	r.Assume("chunk indexes are always kept, and repeated schema/channel records are kept wherever indexed reads are required to succeed; ties across chunks in time order are unconstrained")
 	r.Phase("summary-without-repeated-records", c12NoRepeatBody(), chk.PhaseOpts{Share: 0.2, SplitLen: 3})
 	r.Phase("all-pairs-of-dimensions", c12Body(false, r.Thorough()), chk.PhaseOpts{Share: 0.7, SplitLen: 4})
